@@ -29,7 +29,8 @@ Canon(js) == [clock |-> js.clock,
               servers |-> [s \in DOMAIN js.servers |-> CanonSrv(js.servers[s])],
               buckets |-> [b \in DOMAIN js.buckets |-> CanonBkt(js.buckets[b])],
               apps |-> [a \in DOMAIN js.apps |-> CanonApp(js.apps[a])],
-              groups |-> [g \in DOMAIN js.groups |-> CanonGrp(js.groups[g])]]
+              groups |-> [g \in DOMAIN js.groups |-> CanonGrp(js.groups[g])],
+              allocs |-> js.allocs]
 
 CanonAP(j) == [demand |-> j.demand, prio |-> j.prio, aff |-> j.aff, limits |-> j.limits,
                alloc |-> j.alloc, group |-> j.group, lease |-> j.lease,
@@ -63,22 +64,34 @@ CycleFail(pre, line, post) ==
   \cup F("C08.frozenKeep", C08frozenKeep(pre, post, q))
   \cup F("C08.frozenNoNew", C08frozenNoNew(pre, post))
   \cup F("C08.blacklist", C08blacklist(post))
+  \cup F("C06.perm", C06perm(pre, line.queues))
+  \cup F("C06.rank", \A k \in DOMAIN line.queues : C06rank(line.queues[k]))
+  \cup F("C06.prio", \A k \in DOMAIN line.queues : C06prio(pre, line.queues[k]))
+  \cup F("C06.zeroLast", \A k \in DOMAIN line.queues : C06zeroLast(pre, line.queues[k]))
+  \cup F("C06.boost", \A k \in DOMAIN line.queues : C06boost(pre, line.queues[k]))
+  \cup F("C06.cap", \A k \in DOMAIN line.queues : C06cap(pre, line.queues[k], post))
   \cup F("drift.cycle", CycleExplained(pre, line.queues, post))
+  \cup F("C02.prune", C02prune(post))
+  \cup (IF line.ev = "ProbeCycle" /\ line.quiet
+        THEN F("C02.probe", C02probe(pre, post, q, line.probe)) ELSE {})
 
 CycleEx(pre, line, post) ==
   LET q == Flatten(line.queues) IN
   E("C01", Placed(post) # {}) \cup E("C03", C03ex(line.placement))
   \cup E("C04", C04ex(post)) \cup E("C05", C05ex(post))
   \cup E("C07", C07ex(pre, post, q)) \cup E("C08", C08ex(pre, post))
+  \cup E("C06", \E k \in DOMAIN line.queues : C06ex(pre, line.queues[k]))
+  \cup E("C02", line.ev = "ProbeCycle" /\ line.quiet /\ C02ex(pre, q, line.probe))
   \cup E("evict", \E a \in AppNames(pre) : a \in AppNames(post) /\ pre.apps[a].server # NoServer
                        /\ post.apps[a].server # pre.apps[a].server)
 
 Verdict(pre, line, post) ==
   IF "exc" \in DOMAIN line
   THEN [fail |-> {"exc"}, ex |-> {}]
-  ELSE IF line.ev = "Cycle"
+  ELSE IF line.ev \in {"Cycle", "ProbeCycle"}
   THEN [fail |-> CycleFail(pre, line, post), ex |-> CycleEx(pre, line, post)]
-  ELSE [fail |-> F("drift.env", EnvExplained(pre, line.ev, line.args, post, CanonScn(Traces[t].scn))), ex |-> {}]
+  ELSE [fail |-> F("drift.env", EnvExplained(pre, line.ev, line.args, post, CanonScn(Traces[t].scn)))
+                 \cup F("C02.prune", C02prune(post)), ex |-> {}]
 
 Init == /\ t \in DOMAIN Traces
         /\ i = 1
